@@ -94,6 +94,11 @@ templ H6(a *rt.A) {
 	@failing(a, "c1")
 }
 
+templ H8(a *rt.A) {
+	<pre>{ strings.Repeat(a.S("s1")+".", 1500) }</pre>
+	<p>{ a.E("e1") }</p>
+}
+
 templ H7(a *rt.A) {
 	switch a.K("k1") {
 		case "k0":
@@ -166,7 +171,7 @@ func main() {
 		{name: "H0", exprs: []string{"e1"}}, {name: "H1", exprs: []string{"e1", "e2"}}, {name: "H2", exprs: []string{"e1"}, comps: []string{"c1"}},
 		{name: "H3", exprs: []string{"e1"}, comps: []string{"c2"}}, {name: "H4", exprs: []string{"e1"}, comps: []string{"c1"}}, {name: "F0", flush: true},
 		{name: "H5", exprs: []string{"e1"}, comps: []string{"c1"}}, {name: "H6", exprs: []string{"e1"}, comps: []string{"c1"}},
-		{name: "H7", exprs: []string{"e1", "e2", "e3"}, comps: []string{"c1", "c2"}},
+		{name: "H7", exprs: []string{"e1", "e2", "e3"}, comps: []string{"c1", "c2"}}, {name: "H8", exprs: []string{"e1"}},
 	}
 	srcLines := strings.Split(c10Templ, "\n")
 	for i := range hand {
@@ -318,6 +323,14 @@ func main() {
 						for _, short := range []bool{false, true} {
 							add(rt.Job{T: t.name, V: v, FailAt: i, Short: short}, meta{kind: "writer", t: t})
 						}
+						// a writer that takes the whole slice and still reports the error, and one that silently takes only
+						// a part (nil error): the first must surface the error, the second must not end in "nil error, partial document"
+						if i%4 == 0 || i%bs <= 1 || i%bs == bs-1 || i >= len(doc)-1 {
+							add(rt.Job{T: t.name, V: v, FailAt: i, FullErr: true}, meta{kind: "writer-full-count", t: t})
+							if t.name != "F0" { // F0's hand-written leaf ignores short counts itself
+								add(rt.Job{T: t.name, V: v, FailAt: i, NilShort: true}, meta{kind: "writer-silent-short", t: t})
+							}
+						}
 						if i%5 == 0 {
 							clean()
 						}
@@ -390,6 +403,23 @@ func main() {
 						run.Violation("writer-error-lost", fmt.Sprintf("%s at offset %d (short=%v): Render returned %q, want an error wrapping the writer's", where, j.FailAt, j.Short, r.Err), replay)
 					}
 					outcomes["writer error"]++
+				case "writer-full-count":
+					faults++
+					if len(want.HTML) == 0 {
+						continue
+					}
+					if r.Err == "" || !r.IsWriter {
+						run.Violation("writer-error-lost", fmt.Sprintf("%s at offset %d: the writer accepted the bytes but returned an error, Render returned %q", where, j.FailAt, r.Err), replay)
+					}
+					outcomes["writer full-count error"]++
+				case "writer-silent-short":
+					faults++
+					// the generic rules above apply: a nil error requires the complete document, otherwise a prefix
+					if r.Err == "" {
+						outcomes["silent short write beyond end"]++
+					} else {
+						outcomes["silent short write detected"]++
+					}
 				case "expr", "component":
 					faults++
 					reached := false
@@ -443,7 +473,7 @@ func main() {
 	run.Sample(map[string]any{"template": "H1", "fault": "a.E(\"e2\") (a two-line expression) returns an error", "expect": "templ.Error with FileName c10.templ and Line inside the expression"})
 	run.Assumption("templ.Error.Line is 1-based (the generator emits Range.To.Line+1); a line inside the expression's source lines is accepted")
 	run.Assumption("for documents longer than 600 bytes every 7th offset plus all offsets adjacent to buffer boundaries are enumerated")
-	run.Finish(evals, faults, "every template (8 hand-written with library components and error sources + single-constructor and attribute programs of the C02 space) × 2 valuations × 3 buffer sizes × {writer failure at every offset with zero and short write, every failing expression twice, every failing nested component, failing flush, cancelled context}, interleaved with clean renders of the same and another template in the same process; non-trivial = renders with an injected fault")
+	run.Finish(evals, faults, "every template (8 hand-written with library components and error sources + single-constructor and attribute programs of the C02 space) × 2 valuations × 3 buffer sizes × {writer failure at every offset with zero and short write (and, at every 4th offset and around buffer boundaries, a writer that accepts everything but reports an error and one that silently accepts a part), every failing expression twice, every failing nested component, failing flush, cancelled context}, interleaved with clean renders of the same and another template in the same process; non-trivial = renders with an injected fault")
 }
 
 func clip(s string) string {
